@@ -106,6 +106,10 @@ class ProtoExporter:
             msg = f"Cannot serialize Module {module} due to conflicting name with {conflict}. \n"
             msg += "(Was this a generator that didn't get decorated with `@hdl21.generator`?) "
             raise RuntimeError(msg)
+        for prior in self.pkg.ext_modules:
+            if ext_module_qualname(prior) == mname:
+                msg = f"Cannot serialize Module {module} due to conflicting name with external module `{mname}`"
+                raise RuntimeError(msg)
         return mname
 
     def export_module(self, module: Module) -> vckt.Module:
@@ -172,6 +176,12 @@ class ProtoExporter:
                     raise RuntimeError(msg)
                 self.ext_modules[id(emod)] = prior
                 return prior
+
+        # Nor may it share its name with a `Module` of the package
+        if ext_module_qualname(pmod) in self.modules_by_name:
+            conflict = self.modules_by_name[ext_module_qualname(pmod)].hmod
+            msg = f"Cannot serialize {emod} due to conflicting name with {conflict}"
+            raise RuntimeError(msg)
 
         # Store references to the result, and return it
         self.ext_modules[id(emod)] = pmod
@@ -478,6 +488,13 @@ def export_prefixed(pref: Prefixed) -> vlsir.Prefixed:
 def export_literal(literal: Literal) -> str:
     """Export a `Literal`, as its text value"""
     return literal.text
+
+
+def ext_module_qualname(pmod: vckt.ExternalModule) -> str:
+    """The dot-separated qualified name of proto external-module `pmod`, as a `Module` of the same path would be named."""
+    if pmod.name.domain:
+        return f"{pmod.name.domain}.{pmod.name.name}"
+    return pmod.name.name
 
 
 def export_external_module(emod: ExternalModule) -> vckt.ExternalModule:
